@@ -20,8 +20,11 @@ Definition parse_rdw (s : string) : rdw :=
     if Ascii.eqb c "N"%char then WName (unhex r)
     else if Ascii.eqb c "A"%char then WAddr (unhex r)
     else if Ascii.eqb c "T"%char then WTxt (items r)
-    else WGen (items r)
-  | EmptyString => WGen []
+    else match items r with
+         | len :: hs => WGen len hs
+         | [] => WGen [] []
+         end
+  | EmptyString => WGen [] []
   end.
 Definition parse_entry (s : string) : entry :=
   match split_on ","%char s EmptyString with
